@@ -26,6 +26,7 @@ func init() {
 func runC12(c *Ctx) {
 	defer c12IllegalChar(c)
 	defer c12OffsetScan(c)
+	tokenStorageFresh(c, "R10")
 	defer c.shared("R9", "C01/R1", "every runtime error carries a position: the errors that leave the interpreter's entry points are SyntaxError / RuntimeError / JsonError values only — a raw error (an unwrapped `unknown variable`) has no line at all", keyHas("entry "), func(s *Ctx) { c01R1(s, scopeAgreement(s, "R2")) })
 	defer c12LineColArithmetic(c)
 	p := c.P
@@ -736,4 +737,62 @@ func readsParserToken(v ssa.Value) (prev, cur bool) {
 	}
 	walk(v, 0)
 	return
+}
+
+// tokenStorageFresh: a token keeps its storage. Parselets hold on to *Token pointers taken from the
+// cursor while they parse on (array, member, index, is), and read them afterwards for the position
+// of the node they build.
+func tokenStorageFresh(c *Ctx, rule string) {
+	p := c.P
+	c.note("%s token-storage-fresh: every store to Parser.current / Parser.previous is the address of a token allocated in that call, or a copy of one of these two fields: the cursor never points into storage that a later advance overwrites, so a *Token kept by a parselet still denotes the token it was taken for (and the position of the node built from it is that token's).", rule)
+	n := 0
+	for _, fn := range p.Funcs {
+		if !p.InLang(fn) || p.inTestFile(fn) {
+			continue
+		}
+		for _, field := range []string{"current", "previous"} {
+			for _, st := range storesToField(fn, "Parser", field, false) {
+				n++
+				var ok func(v ssa.Value, d int) bool
+				ok = func(v ssa.Value, d int) bool {
+					if d > 6 {
+						return false
+					}
+					switch x := v.(type) {
+					case *ssa.Alloc:
+						return true
+					case *ssa.UnOp:
+						if x.Op != token.MUL {
+							return false
+						}
+						if sf, isF := fieldOfAddr(x.X); isF && (sf.Is("Parser", "current") || sf.Is("Parser", "previous")) {
+							return true
+						}
+						if a, isA := x.X.(*ssa.Alloc); isA {
+							for _, r := range referrersOf(a) {
+								if s2, isS := r.(*ssa.Store); isS && s2.Addr == ssa.Value(a) && !ok(s2.Val, d+1) {
+									return false
+								}
+							}
+							return true
+						}
+					case *ssa.Phi:
+						for _, e := range x.Edges {
+							if e != ssa.Value(x) && !ok(e, d+1) {
+								return false
+							}
+						}
+						return true
+					case *ssa.Const:
+						return x.IsNil()
+					}
+					return false
+				}
+				c.check(ok(st.Val, 0), rule, fmt.Sprintf("token-storage-fresh Parser.%s #%d in %s", field, n, shortName(fn)), p.InstrPos(st), "a freshly allocated token or the other cursor field", "Parser."+field+" is set to "+p.RenderShort(st.Val)+", storage that a later advance overwrites: a *Token a parselet kept (the `[` of an array literal, the `.` of a member access) then denotes a later token, and the node's error position moves past the construct")
+			}
+		}
+	}
+	if n < 3 {
+		c.undecided(rule, "token-storage-fresh instance-floor", "", fmt.Sprintf("%d stores to the parser's cursor found, 4 expected", n))
+	}
 }
